@@ -315,8 +315,10 @@ def full_menu():
             ['IntRet', 'in', ['Cnt'], []],
             ['InOut', 'in', ['void'], [['x', ['T2'], 'inout']]],
             ['Same', 'in', ['void'], [['a', ['T1'], 'in'], ['b', ['T1'], 'in'], ['c', ['T1'], 'inout']]],
-            ['Four', 'in', ['Res'], [['a', ['T3'], 'in'], ['b', ['T1'], 'in'], ['c', ['T2'], 'out'], ['d', ['T3'], 'inout']]],
-            ['OFour', 'out', ['void'], [['a', ['T1'], 'in'], ['b', ['T2'], 'in'], ['c', ['T3'], 'in'], ['d', ['T1'], 'in']]],
+            # formal names related by substring; an out formal BEFORE in formals
+            ['Four', 'in', ['Res'], [['value', ['T3'], 'in'], ['val', ['T2'], 'out'], ['lue', ['T1'], 'in'], ['v', ['T3'], 'inout']]],
+            ['OutFirst', 'in', ['void'], [['status', ['T2'], 'out'], ['level', ['T1'], 'in']]],
+            ['OFour', 'out', ['void'], [['total', ['T1'], 'in'], ['tot', ['T2'], 'in'], ['al', ['T3'], 'in'], ['t', ['T1'], 'in']]],
             ['IRef', 'in', ['bool'], [['a', ['T4'], 'in'], ['b', ['T2'], 'out']]],
             ['ORef', 'out', ['void'], [['a', ['T4'], 'in'], ['b', ['T1'], 'in']]],
             ['O0', 'out', ['void'], []],
